@@ -437,6 +437,12 @@ def _simple_arg(e) -> bool:
     return isinstance(e, (ast.Name, ast.Constant)) or (isinstance(e, ast.Attribute) and _simple_arg(e.value))
 
 
+def _ifexp_leaves(e):
+    if isinstance(e, ast.IfExp):
+        return _ifexp_leaves(e.body) + _ifexp_leaves(e.orelse)
+    return [e]
+
+
 class Inliner:
     def __init__(self, lookup, depth=3):
         """lookup(call) -> (callee FunctionDef, skip_first, prepare) | None; prepare(body) may lower the callee body"""
@@ -533,7 +539,7 @@ class Inliner:
         if r is None or d <= 0:
             return None
         callee, skip = r[0], r[1]
-        if callee.name in stack or callee.args.vararg or callee.args.kwarg or _contains(callee, (ast.Yield, ast.YieldFrom, ast.Await)):
+        if callee.name in stack or callee.args.vararg or callee.args.kwarg or _contains(callee, (ast.YieldFrom, ast.Await)):
             return None
         body = real_body(callee)
         if not body:
@@ -546,6 +552,34 @@ class Inliner:
             selfname = (callee.args.posonlyargs + callee.args.args)[0].arg
             if not (isinstance(call.func.value, ast.Name) and call.func.value.id == selfname):
                 env[selfname] = copy.deepcopy(call.func.value)
+        if _contains(callee, (ast.Yield,)):
+            # a generator helper `for v in S: <refuse or> yield E`: the generator expression (E' for v in S), E' refusing with raise_(..)
+            real = [x for x in body if not (isinstance(x, ast.Expr) and isinstance(x.value, ast.Constant))]
+            if len(real) != 1 or not isinstance(real[0], ast.For) or real[0].orelse:
+                return None
+            lp = real[0]
+            tn = {n.id for n in ast.walk(lp.target) if isinstance(n, ast.Name)}
+            if tn & set(env):
+                return None
+
+            class Y(ast.NodeTransformer):
+                def visit_Expr(self, node):
+                    if isinstance(node.value, ast.Yield) and node.value.value is not None:
+                        return ast.copy_location(ast.Return(value=node.value.value), node)
+                    return node
+            lb = [Y().visit(copy.deepcopy(x)) for x in lp.body]
+            if _contains(ast.Module(body=lb, type_ignores=[]), (ast.Yield, ast.For, ast.While)):
+                return None
+            elt = self._body_expr(lb, {k: v for k, v in env.items()}, 0)
+            if elt is None or (isinstance(elt, ast.Constant) and elt.value is None):
+                return None
+            # every way through the loop body yields or refuses (no silent filtering)
+            if any(isinstance(n, ast.Constant) and n.value is None for n in _ifexp_leaves(elt)):
+                return None
+            val = ast.GeneratorExp(elt=elt, generators=[ast.comprehension(target=copy.deepcopy(lp.target), iter=norm._Subst(dict(env)).visit(copy.deepcopy(lp.iter)), ifs=[], is_async=0)])
+            ast.copy_location(val, call)
+            ast.fix_missing_locations(val)
+            return val
         if not isinstance(body[-1], ast.Return) or body[-1].value is None or any(isinstance(x, (ast.If, ast.Raise)) for x in body[:-1]):
             # branching / refusing helpers: a conditional expression, with raise_(exc) standing for a raising branch
             val = self._body_expr(list(body), env, 0)
